@@ -6,6 +6,7 @@ import (
 	"fmt"
 	"os"
 	"os/exec"
+	"reflect"
 	"runtime/debug"
 	"strings"
 	"sync"
@@ -500,6 +501,9 @@ func c19Alphabet() []c19Call {
 			}
 			return fmt.Sprintf("%x", bw.ToStrs(bw.FromStrs(in.Strs)))
 		}, false},
+		{"bitword.FromStrs", func(*c19In) int { return 4 }, func(in *c19In, k int) interface{} {
+			return bitword.BitWord[c19Widths[k%4]].FromStrs(in.Strs[:3]) // the slices themselves: re-read and poked after the pass
+		}, false},
 		{"sigbits.FirstDiffBits", func(in *c19In) int { return len(in.KeySets) }, func(in *c19In, k int) interface{} { return pr(sigbits.FirstDiffBits(in.KeySets[k])) }, true},
 		{"sigbits.New+CountPrefixes", func(in *c19In) int { return len(in.Keys) - 1 }, func(in *c19In, k int) interface{} {
 			sb := sigbits.New(in.Keys)
@@ -530,6 +534,36 @@ func c19SafeV(cl *c19Call, in *c19In, k int) (v interface{}, r string) {
 	}()
 	v = cl.Do(in, k)
 	return v, c19Str(v)
+}
+
+// c19AppendPoke writes one zero element into the spare capacity of every slice
+// reachable from a returned value (what append does when cap > len).
+func c19AppendPoke(v reflect.Value, depth int) {
+	if !v.IsValid() || depth > 3 {
+		return
+	}
+	switch v.Kind() {
+	case reflect.Interface:
+		c19AppendPoke(v.Elem(), depth+1)
+	case reflect.Slice:
+		for i := 0; i < v.Len(); i++ {
+			if k := v.Index(i).Kind(); k == reflect.Slice || k == reflect.Interface {
+				c19AppendPoke(v.Index(i), depth+1)
+			}
+		}
+		if v.Cap() > v.Len() {
+			ext := v.Slice(0, v.Len()+1)
+			e := ext.Index(v.Len())
+			if e.CanSet() {
+				switch e.Kind() {
+				case reflect.Uint8, reflect.Uint16, reflect.Uint32, reflect.Uint64, reflect.Uint:
+					e.SetUint(0xEE)
+				case reflect.Int8, reflect.Int16, reflect.Int32, reflect.Int64, reflect.Int:
+					e.SetInt(-18)
+				}
+			}
+		}
+	}
 }
 
 func c19Str(v interface{}) string {
@@ -569,17 +603,34 @@ func c19ForwardKeep(alpha []c19Call, in *c19In) ([][]string, []c19Retained) {
 		}
 	}
 	var bad []c19Retained
-	for ci := range alpha {
-		for k, v := range vals[ci] {
-			if v == nil {
-				continue
-			}
-			if now := c19Str(v); now != out[ci][k] {
-				bad = append(bad, c19Retained{ci, k, out[ci][k], now})
+	recheck := func(tag string) {
+		for ci := range alpha {
+			for k, v := range vals[ci] {
+				if v == nil {
+					continue
+				}
+				if now := c19Str(v); now != out[ci][k] {
+					bad = append(bad, c19Retained{ci, k, out[ci][k], tag + now})
+					out[ci][k] = now // report each change once
+				}
 			}
 		}
 	}
-	return out, bad
+	recheck("")
+	// then: append one element to every returned slice (result discarded, as a caller building
+	// on a returned slice would do). Spare capacity of a result must not be memory that another
+	// result, an argument or the library still uses.
+	for ci := range alpha {
+		for _, v := range vals[ci] {
+			c19AppendPoke(reflect.ValueOf(v), 0)
+		}
+	}
+	fresh := make([][]string, len(out))
+	for i := range out {
+		fresh[i] = append([]string(nil), out[i]...)
+	}
+	recheck("after appending to every returned slice: ")
+	return fresh, bad
 }
 
 func c19Digest(res [][][]string) string {
